@@ -5,7 +5,14 @@ import (
 	"fmt"
 	"sort"
 
+	"github.com/wundergraph/graphql-go-tools/v2/pkg/astnormalization"
+	"github.com/wundergraph/graphql-go-tools/v2/pkg/asttransform"
+	"github.com/wundergraph/graphql-go-tools/v2/pkg/astvalidation"
+	"github.com/wundergraph/graphql-go-tools/v2/pkg/engine/plan"
+	"github.com/wundergraph/graphql-go-tools/v2/pkg/engine/postprocess"
 	"github.com/wundergraph/graphql-go-tools/v2/pkg/engine/resolve"
+	"github.com/wundergraph/graphql-go-tools/v2/pkg/internal/unsafeparser"
+	"github.com/wundergraph/graphql-go-tools/v2/pkg/operationreport"
 )
 
 // zzShape renders the response shape of a plan (field names, paths, nullability, type names, possible
@@ -108,4 +115,93 @@ func VerifC09Determinism(op, mapBudget, sched int) {
 	}
 	verifExplore(0, 0)
 	verifCover("planned")
+}
+
+// ---- H-C09c: a plan does not depend on what was planned before (pooled planner helpers are reused)
+
+const zzHistSuper = `
+type Query { me: User users: [User!]! items: [Item!]! }
+type User { id: ID! name: String! reviews: [Review!]! }
+type Review { id: ID! body: String! author: User! }
+union Item = A | B
+type A { name: String }
+type B { name: String }
+`
+const zzHistUsers = `
+type Query { me: User users: [User!]! items: [Item!]! }
+type User @key(fields: "id") { id: ID! name: String! }
+union Item = A | B
+type A { name: Int }
+type B { name: String }
+`
+
+func zzHistConfig() plan.Configuration {
+	c := zzConfig()
+	c.DataSources[0] = zzDS("users", "http://users", zzHistUsers, &plan.DataSourceMetadata{
+		RootNodes:          []plan.TypeField{{TypeName: "Query", FieldNames: []string{"me", "users", "items"}}, {TypeName: "User", FieldNames: []string{"id", "name"}}},
+		ChildNodes:         []plan.TypeField{{TypeName: "A", FieldNames: []string{"name"}}, {TypeName: "B", FieldNames: []string{"name"}}},
+		FederationMetaData: plan.FederationMetaData{Keys: []plan.FederationFieldConfiguration{{TypeName: "User", SelectionSet: "id"}}},
+	})
+	return c
+}
+
+func zzPlanWith(cfg plan.Configuration, super, operation string) (string, bool) {
+	def := unsafeparser.ParseGraphqlDocumentString(super)
+	op := unsafeparser.ParseGraphqlDocumentString(operation)
+	if err := asttransform.MergeDefinitionWithBaseSchema(&def); err != nil {
+		panic(err)
+	}
+	norm := astnormalization.NewWithOpts(astnormalization.WithExtractVariables(), astnormalization.WithInlineFragmentSpreads(), astnormalization.WithRemoveFragmentDefinitions(), astnormalization.WithRemoveUnusedVariables())
+	var report operationreport.Report
+	norm.NormalizeOperation(&op, &def, &report)
+	astvalidation.DefaultOperationValidator().Validate(&op, &def, &report)
+	if report.HasErrors() {
+		return "invalid: " + report.Error(), false
+	}
+	p, err := plan.NewPlanner(cfg)
+	if err != nil {
+		panic(err)
+	}
+	pl := p.Plan(&op, &def, "", &report)
+	if report.HasErrors() {
+		return "plan error: " + report.Error(), false
+	}
+	postprocess.NewProcessor(postprocess.DisableResolveInputTemplates()).Process(pl)
+	sp, ok := pl.(*plan.SynchronousResponsePlan)
+	if !ok {
+		return "not synchronous", false
+	}
+	return zzDigest(sp.Response), true
+}
+
+var zzHistOps = []string{
+	`{ me { id name reviews { body } } }`,
+	`{ items { ... on A { name } ... on B { name } } }`, // the subgraph declares A.name: Int, the supergraph String: the upstream operation is rejected (fields conflict)
+	`{ users { name } }`,
+	`{ h: me { id } }`,
+}
+
+// VerifC09History: H-C09c. Two plans in a row on one process (solver-chosen from 4 operations, one of which fails
+// inside the data source planner), with sync.Pool handing back what was put (engine option pool_reuse): the second
+// plan - success or failure, and its digest - is the one a fresh process produces for that operation.
+func VerifC09History() {
+	verifExplore(0, 0)
+	cfg := zzHistConfig()
+	first := zzHistOps[nondetChoice(len(zzHistOps))]
+	second := zzHistOps[nondetChoice(len(zzHistOps))]
+	verifObserveString("input", first+" | "+second)
+	// reference for the second operation, before anything else was planned
+	want, wantOK := zzPlanWith(zzHistConfig(), zzHistSuper, second)
+	_, _ = zzPlanWith(cfg, zzHistSuper, first)
+	got, gotOK := zzPlanWith(cfg, zzHistSuper, second)
+	if gotOK != wantOK || (gotOK && got != want) {
+		verifObserveString("fresh", want)
+		verifObserveString("after-history", got)
+		verifAssert(false, "a plan does not depend on what was planned before")
+	}
+	if wantOK {
+		verifCover("second plan succeeds")
+	} else {
+		verifCover("second plan fails")
+	}
 }
